@@ -468,6 +468,20 @@ def _mon_c04_engine(case, verdict, chk):
                 chk.violation("C04:ran-although-not-enabled", "step %s executed although its enabled condition was %r" % (s["id"], v),
                               {"kind": "impl-counterexample", "case": slim(case), "step": s["id"]})
                 return
+        # a prerequisite that never happened: the step waits for / reads `starting.started` of a step whose start FAILED (its
+        # connection is broken from the first write: it deploys and crashes while being started; its plugin never executes)
+        for fld in ("input", "wait_for", "enabled"):
+            if fld not in s.get("fields", {}):
+                continue
+            for p, optional, _ in refs(s["fields"][fld]):
+                if optional or len(p) < 4 or p[0] != "steps" or p[2] != "starting" or p[3] != "started":
+                    continue
+                src = steps.get(p[1]) or {}
+                if (case.get("behaviours") or {}).get(src.get("src") or p[1], {}).get("start_fail"):
+                    chk.violation("C04:ran-on-started-of-a-step-that-failed-to-start",
+                                  "step %s executed although it needs %s and step %s crashed while it was being started (it never started)"
+                                  % (s["id"], ".".join(p), p[1]), {"kind": "impl-counterexample", "case": slim(case), "step": s["id"]})
+                    return
         si = s.get("fields", {}).get("stop_if")
         if si is not None:
             # the stop condition fired clearly (>= 80 ms) before the plugin was started
